@@ -20,10 +20,16 @@ from .c01 import FUNCS
 
 
 def base_spec(shared, hier, n=3, same_sub=False):
-    """same_sub: the two sub-circuits are identical (also their weights), so that they can be ONE CircuitTemplate object"""
+    """same_sub: the two sub-circuits are identical (also their weights), so that they can be ONE CircuitTemplate object.
+    hier == 2: three levels (top -> m0, m1 -> c0, c1 -> nodes); with same_sub the two mid-level circuits are one object
+    as well, and so are all four leaves."""
     fp = FP()
     ops = {'o1': families.op_two_inputs(fp), 'li': families.op_leaky(fp)}
-    pre = ['c0/', 'c1/'] if hier else ['']
+    if hier == 2:
+        pre = ['m0/c0/', 'm0/c1/', 'm1/c0/', 'm1/c1/']
+        n = 2
+    else:
+        pre = ['c0/', 'c1/'] if hier else ['']
     nodes, edges = {}, []
     wts = [fp() for _ in range(4)]
     for p in pre:
@@ -32,11 +38,22 @@ def base_spec(shared, hier, n=3, same_sub=False):
         for i in range(n):
             nodes[f"{p}a{i}"] = NodeSpec(['o1'], {}, template=('TA' if shared else None))
         nodes[f"{p}b0"] = NodeSpec(['li'], {}, template=('TB' if shared else None))
-        nodes[f"{p}b1"] = NodeSpec(['li'], {}, template=('TB' if shared else None))
+        if n > 2:
+            nodes[f"{p}b1"] = NodeSpec(['li'], {}, template=('TB' if shared else None))
         edges.append(EdgeSpec(f"{p}a0/o1/x", f"{p}a1/o1/u", wts[0]))
-        edges.append(EdgeSpec(f"{p}a1/o1/x", f"{p}a2/o1/w", wts[1]))
         edges.append(EdgeSpec(f"{p}b0/li/x", f"{p}a0/o1/u", wts[2]))
-        edges.append(EdgeSpec(f"{p}a2/o1/x", f"{p}b1/li/u", wts[3]))
+        if n > 2:
+            edges.append(EdgeSpec(f"{p}a1/o1/x", f"{p}a2/o1/w", wts[1]))
+            edges.append(EdgeSpec(f"{p}a2/o1/x", f"{p}b1/li/u", wts[3]))
+        else:
+            edges.append(EdgeSpec(f"{p}a1/o1/x", f"{p}b0/li/u", wts[1]))
+    if hier == 2:
+        wm = fp()
+        for m in ('m0/', 'm1/'):
+            if not same_sub:
+                wm = fp()
+            edges.append(EdgeSpec(f"{m}c0/a1/o1/x", f"{m}c1/a0/o1/w", wm))
+        edges.append(EdgeSpec("m0/c1/a1/o1/x", "m1/c0/a0/o1/w", fp()))
     return ModelSpec('m', ops, nodes, edges, note=f"shared templates={shared}, hierarchical={hier}"), fp
 
 
@@ -57,7 +74,7 @@ def gen_history(spec, fp, rnd, length, hier, force=None):
     exp = copy.deepcopy(spec)
     ops = []
     kw = {}
-    allp = 'all/all/' if hier else 'all/'
+    allp = 'all/' * (int(hier) + 1)
     # distinct initial values -------------------------------------------------
     ta, _, _ = addressed(spec, f"{allp}o1/x")
     vals = [fp() for _ in ta]
@@ -75,6 +92,8 @@ def gen_history(spec, fp, rnd, length, hier, force=None):
                            'partial-wild', 'add-edge', 'zero', 'override-twice'])
         if force and step_ == 0:
             kind = force
+        if kind == 'zero' and hier == 2:
+            kind = 'scalar'
         if kind == 'add-edge' and (hier or any(o[0] == 'add_edge_inplace' for o in ops)):
             kind = 'scalar'
         if kind == 'scalar':
@@ -89,7 +108,7 @@ def gen_history(spec, fp, rnd, length, hier, force=None):
             var = rnd.choice([v for v, (k, _) in spec.ops[op].vars.items() if k == 'const'])
             path = f"{allp}{op}/{var}"
             if kind == 'partial-wild' and hier:
-                path = f"c1/all/{op}/{var}"
+                path = f"all/c1/all/{op}/{var}" if hier == 2 else f"c1/all/{op}/{var}"
             tn, _, _ = addressed(spec, path)
             if kind == 'wild-array':
                 vs = [fp() for _ in tn]
@@ -302,6 +321,12 @@ def run(tier='quick', seed=0, only=None, verbose=False):
             jobs.append(dict(key=f"samesub:{seed}:{i}:shared={bool(i % 2)}|vec={vec}", seed=seed * 1000 + 300 + i,
                              shared=bool(i % 2), hier=True, length=i % 3, vectorize=vec, same_sub=True,
                              spec=base_spec(bool(i % 2), True, same_sub=True)[0]))
+    for i in range(3 if tier == 'quick' else 16):
+        # three levels; the mid-level circuit object sits under two keys of the top level, the leaf under two of the mid
+        for vec in (True, False):
+            jobs.append(dict(key=f"samesub3:{seed}:{i}:shared={bool(i % 2)}|vec={vec}", seed=seed * 1000 + 350 + i,
+                             shared=bool(i % 2), hier=2, length=i % 3, vectorize=vec, same_sub=True,
+                             spec=base_spec(bool(i % 2), 2, same_sub=True)[0]))
     for i in range(4 if tier == 'quick' else 40):
         for on in ('derived', 'base'):
             jobs.append(dict(key=f"derive:{seed}:{i}:on={on}|vec={bool(i % 2)}", seed=seed * 1000 + 500 + i, shared=bool(i % 3),
